@@ -22,7 +22,7 @@ ID = "C03"
 LEVEL = "model_checking"
 TECHNIQUE = "stateless schedule exploration (choice-sequence DFS, iterative deviation bounding, prefix replay) of the real run_map/run_map_async through a controllable Executor and a virtual event loop"
 RULE = ("pipelines {two mapped functions + reduction, 2-D map -> partial reduction -> full reduction, tuple-output map -> zip consumer, generator -> outer "
-        "product, internal-axis-first -> reduction; plus (single executor, B=1, sequential/thread real pools only) a map whose every element is None -> element-wise consumer; custom picker / 1-tuple / list-valued reducers; a pipeline under a scope s with two functions without MapSpec side by side} x storage {file_array, dict, shared_memory_dict, per-output mixes} x executor assignment {one, per-output "
+        "product, internal-axis-first -> reduction; plus (single executor, B=1, sequential/thread real pools only) a map whose every element is None -> element-wise consumer; custom picker / 1-tuple / list-valued reducers; a pipeline under a scope s with two functions without MapSpec side by side} x storage {file_array, dict, shared_memory_dict, per-output mixes} (+ for two pipelines: into a folder that already holds a complete run of other function bodies) x executor assignment {one, per-output "
         "dict, default-only dict, partial dict} x {map, map_async}; for each configuration every schedule with <= B deviations (deviation = not letting the "
         "caller continue after a submit / not running the oldest pending task when one must run). Task-splitting: the tasks of a generation as logical threads preempted (<= B times) at user-function entry / argument selection / storage dump; storage-lines: the same with a preemption point at EVERY source line of pipefunc/map/_storage_array/ executed by a task, and map-lines: at every source line of the whole pipefunc/map/ package (quick: file_array for three pipelines, dict for two; thorough: all pipelines x all three storages), where every departure from the default successor thread counts as a deviation (file_array, dict; thorough also shared_memory_dict, and B=2 for dict storage and two file_array pipelines). Plus the same configurations on real Thread/Process pools "
         "(one free-running schedule each, not claimed as schedule coverage; incl. a pre-started process pool whose workers live in another working directory, with a relative run folder)")
@@ -210,6 +210,18 @@ def execute(cfg, chooser):  # noqa: C901, PLR0912
         return orig_run(i)
     s.run_task = run_task
     folder = boot.mkscratch("c03-") if cfg.get("folder", True) else None
+    if cfg.get("prior_run") and folder:
+        # the run folder already holds a COMPLETE run of a pipeline with the same names, shapes and inputs but other function
+        # bodies: the run under test (cleanup left at its default) starts from scratch, whatever the entry point
+        import copy as _copy
+        spec0 = _copy.deepcopy(spec)
+        for fn in spec0["funcs"]:
+            fn["name"] = "old" + fn["name"]
+        with contextlib.redirect_stdout(io.StringIO()), warnings.catch_warnings():
+            warnings.simplefilter("ignore")
+            p0 = gen_map.build(spec0)
+            p0.map(_scoped(spec0, p0, dict(inputs)), run_folder=folder, internal_shapes=gen_map.internal_shapes_arg(spec0), parallel=False,
+                   storage=storage_arg(cfg["storage"]))
     terms.LOG.clear()
     del _DUMPS[:]
     obs = {"status": "ok"}
@@ -443,6 +455,8 @@ def configs(tier):
                     continue
                 for entry in ("sync", "async"):
                     out.append({"pipe": pipe, "storage": st, "exec": ex, "entry": entry})
+                    if ex == "one" and st == "file_array" and pipe in ("two-maps-reduce", "tuple-zip"):
+                        out.append({"pipe": pipe, "storage": st, "exec": ex, "entry": entry, "prior_run": True})
     return out
 
 
